@@ -3,9 +3,13 @@
    commutants L; the twirl with exact rational coefficients.  Proved for every n: symmetries built from different
    components or different linear symmetries have disjoint Pauli supports and are therefore orthogonal in the trace
    inner product; and every member of the model's full basis commutes with g(x)1 + 1(x)g for every member g
-   (pairing S <-> g.S inside a component, letterwise phase identities).  Not proved: completeness (basis theorem of arXiv:2502.16404; validated per input by a rank computation, n <= 2), and the
+   (pairing S <-> g.S inside a component, letterwise phase identities); any two members of the full basis (two
+   positions of the list) are trace-orthogonal and each has squared norm |Q| 4^n; the twirl fixes every member
+   exactly, satisfies <Q, twirl m> = <Q, m> for every member Q (so it is idempotent and its residual is orthogonal
+   to every symmetry) and its output commutes with every g(x)1 + 1(x)g.  Rational coefficients are
+   (numerator, denominator, string); `numer D` multiplies out the common denominator D.  Not proved: completeness (basis theorem of arXiv:2502.16404; validated per input by a rank computation, n <= 2), and the
    projector laws of the twirl (checked densely per input). *)
-From PauLie Require Import Pauli Matrix Linear LinearT Graph Quadratic QuadraticT QuadInvT.
+From PauLie Require Import Pauli Matrix Linear LinearT Graph Quadratic QuadraticT QuadInvT QuadOrthT TwirlT.
 
 Theorem C16_disjoint_supports : forall n C C' L L',
   (forall s, In s C -> length s = n) -> (forall s, In s C' -> length s = n) -> length L = n -> length L' = n ->
@@ -32,6 +36,43 @@ Theorem C16_invariant_general : forall n g L C, length g = n -> length L = n -> 
   meq (2 * n) (mmul (2 * n) (denote (gen2 n g)) (denote (quadratic C L))) (mmul (2 * n) (denote (quadratic C L)) (denote (gen2 n g))).
 Proof. exact quadratic_invariant. Qed.
 Print Assumptions C16_invariant_general.
+
+(* distinct symmetries (any two positions of the returned list) are orthogonal; each is non-zero with norm^2 |Q| 4^n *)
+Theorem C16_pairwise_orthogonal : forall n G, (forall h, In h G -> length h = n) -> G <> [] ->
+  ForallOrdPairs (fun q q' => mtrace (2 * n) (mmul (2 * n) (denote (lherm q)) (denote q')) = g0) (full_basis n G).
+Proof. exact full_basis_orthogonal. Qed.
+Print Assumptions C16_pairwise_orthogonal.
+Theorem C16_norm : forall n G q, (forall h, In h G -> length h = n) -> In q (full_basis n G) ->
+  mtrace (2 * n) (mmul (2 * n) (denote (lherm q)) (denote q)) = gmul (two_n (2 * n)) (Z.of_nat (length q), 0%Z) /\ q <> [].
+Proof. exact full_basis_norm. Qed.
+Print Assumptions C16_norm.
+
+(* the twirl: proj_num Q m = tr(Q^dagger m) / 4^n *)
+Theorem C16_proj_is_trace : forall N q m, all_n N q -> all_n N m ->
+  mtrace N (mmul N (denote (lherm q)) (denote m)) = gmul (two_n N) (proj_num q m).
+Proof. exact proj_num_trace. Qed.
+Print Assumptions C16_proj_is_trace.
+(* fixes every symmetry: every term c_t of Q comes back as (|Q| c_t) / |Q| *)
+Theorem C16_twirl_fixes : forall n G, (forall h, In h G -> length h = n) -> G <> [] -> forall q, In q (full_basis n G) ->
+  twirl n G q = map (fun t => (gmul (nat_gi (length q)) (fst t), length q, snd t)) q.
+Proof. exact model_twirl_fixes. Qed.
+Print Assumptions C16_twirl_fixes.
+(* <Q, twirl m> = <Q, m> for every symmetry Q: the residual m - twirl m is orthogonal to every symmetry *)
+Theorem C16_twirl_projects : forall n G, (forall h, In h G -> length h = n) -> G <> [] -> forall m q, In q (full_basis n G) ->
+  proj_num q (numer (common_den (full_basis n G)) (twirl n G m)) = gmul (nat_gi (common_den (full_basis n G))) (proj_num q m).
+Proof. exact model_twirl_projects. Qed.
+Print Assumptions C16_twirl_projects.
+(* idempotent: twirling the twirl returns the same rational coefficients (numerators scaled by the cleared denominator) *)
+Theorem C16_twirl_idempotent : forall n G, (forall h, In h G -> length h = n) -> G <> [] -> forall m,
+  twirl n G (numer (common_den (full_basis n G)) (twirl n G m)) =
+  map (fun x => (gmul (nat_gi (common_den (full_basis n G))) (fst (fst x)), snd (fst x), snd x)) (twirl n G m).
+Proof. exact model_twirl_idempotent. Qed.
+Print Assumptions C16_twirl_idempotent.
+(* the output has the commutation property *)
+Theorem C16_twirl_invariant : forall n G, (forall h, In h G -> length h = n) -> forall m g, In g G ->
+  Comm n (gen2 n g) (numer (common_den (full_basis n G)) (twirl n G m)).
+Proof. exact model_twirl_invariant. Qed.
+Print Assumptions C16_twirl_invariant.
 
 Example C16_example :
   full_basis 1 [[PX]; [PZ]] = [[((1,0), [PI;PI])]; [((1,0), [PZ;PZ]); ((1,0), [PY;PY]); ((1,0), [PX;PX])]]%Z /\
